@@ -11,8 +11,50 @@ fn base() -> Options { Options::new() }
 fn ctx(tok: &str, k: usize) -> String { match k { 0 => tok.to_string(), 1 => format!("({} x)", tok), 2 => format!("(x {})", tok), _ => format!("#({})", tok) } }
 fn wrap(v: Value, k: usize) -> Value { match k { 0 => v, 1 => Value::list(vec![v, Value::symbol("x")]), 2 => Value::list(vec![Value::symbol("x"), v]), _ => Value::Vector(vec![v].into()) } }
 
+/// all 1536 option sets, by index
+fn optset(i: usize) -> (Options, [usize; 8]) {
+    let f = [i % 8, (i / 8) % 3, (i / 24) % 2, (i / 48) % 2, (i / 96) % 2, (i / 192) % 2, (i / 384) % 2, (i / 768) % 2];
+    let mut kws = vec![];
+    if f[0] & 1 != 0 { kws.push(KeywordSyntax::ColonPrefix); }
+    if f[0] & 2 != 0 { kws.push(KeywordSyntax::ColonPostfix); }
+    if f[0] & 4 != 0 { kws.push(KeywordSyntax::Octothorpe); }
+    let o = Options::new().with_keyword_syntaxes(kws)
+        .with_nil_symbol([NilSymbol::Default, NilSymbol::EmptyList, NilSymbol::Special][f[1]]).with_t_symbol([TSymbol::Default, TSymbol::True][f[2]])
+        .with_brackets([Brackets::List, Brackets::Vector][f[3]]).with_string_syntax([lexpr::parse::StringSyntax::R6RS, lexpr::parse::StringSyntax::Elisp][f[4]])
+        .with_char_syntax([CharSyntax::R6RS, CharSyntax::Elisp][f[5]]).with_racket_hash_percent_symbols(f[6] == 1).with_leading_digit_symbols(f[7] == 1);
+    (o, f)
+}
+const REF_TOKENS: &[&str] = &["nil", "t", "foo", "nil:", "t:", "foo:", ":foo", "::a", ":a:", ":", "#:foo", "#:nil", "#%foo", "?a", "?z", "12", "12ab", "1+", "#nil", "#t", "#f", "#\\a", "#\\space", "nilx", "tt", "T", "NIL", "-", "+", "...", "-foo", "x:y", "#x1F", "#b101", "\"s\""];
+/// the reading of a token under an option set, written from the documentation of the options (independent of the parser); None = skip
+fn reference(tok: &str, f: &[usize; 8]) -> Option<Option<Value>> {
+    let (prefix, postfix, octo) = (f[0] & 1 != 0, f[0] & 2 != 0, f[0] & 4 != 0);
+    let (racket, lds, elisp_char) = (f[6] == 1, f[7] == 1, f[5] == 1);
+    let sym = |s: &str| Some(Some(Value::symbol(s)));
+    let kw = |s: &str| Some(Some(Value::keyword(s)));
+    let b = tok.as_bytes();
+    if tok.starts_with("#:") { return if octo { kw(&tok[2..]) } else { Some(None) }; }
+    if tok.starts_with("#%") { return if racket { sym(tok) } else { Some(None) }; }
+    match tok { "#nil" => return Some(Some(Value::Nil)), "#t" => return Some(Some(Value::Bool(true))), "#f" => return Some(Some(Value::Bool(false))),
+                "#\\a" => return Some(Some(Value::Char('a'))), "#\\space" => return Some(Some(Value::Char(' '))), "#x1F" => return Some(Some(Value::from(31))), "#b101" => return Some(Some(Value::from(5))),
+                "\"s\"" => return Some(Some(Value::from("s"))), _ => {} }
+    if b[0] == b':' { return if prefix { kw(&tok[1..]) } else { sym(tok) }; }
+    if b[0] == b'?' { return if elisp_char { Some(Some(Value::Char(tok[1..].chars().next()?))) } else { sym(tok) }; }
+    if b[0].is_ascii_digit() {
+        let numeric = tok.bytes().all(|c| c.is_ascii_digit());
+        if numeric { return Some(Some(Value::from(tok.parse::<u64>().ok()?))); }
+        return if lds { sym(tok) } else { None };   // option off: recorded finding D7b, not judged here
+    }
+    if b[0].is_ascii_alphabetic() {
+        if postfix && tok.len() > 1 && tok.ends_with(':') { return kw(&tok[..tok.len() - 1]); }
+        if tok == "nil" { return Some(Some(match f[1] { 0 => Value::symbol("nil"), 1 => Value::Null, _ => Value::Nil })); }
+        if tok == "t" { return Some(Some(if f[2] == 1 { Value::Bool(true) } else { Value::symbol("t") })); }
+        return sym(tok);
+    }
+    sym(tok)   // - + ... -foo: peculiar identifiers, governed by no option
+}
 fn cases(_ob: &str) -> Vec<String> {
     let mut out: Vec<String> = (0..table().len()).map(|i| format!("tok:{}", i)).collect();
+    for ti in 0..REF_TOKENS.len() { out.push(format!("ref:{}", ti)); }
     for t in ["1+", "1-", "1/2", "1.5.6", "0x10", "12ab"] { out.push(format!("whole:{}", t)); }
     out
 }
@@ -66,6 +108,27 @@ fn whole(case: &str) -> Option<String> {
 }
 fn check(case: &str) -> Option<String> {
     if case.starts_with("whole:") { return whole(case); }
+    if case.starts_with("ref:") {
+        let tok = REF_TOKENS[case[4..].parse::<usize>().ok()?];
+        for oi in 0..1536 {
+            let (o, f) = optset(oi);
+            let want = match reference(tok, &f) { Some(w) => w, None => continue };
+            for k in [0usize, 2, 9] {
+                if want.is_none() && k > 0 { continue; }
+                let text = if k == 9 { format!("[x {}]", tok) } else { ctx(tok, k) };
+                for (api, got) in [("value", from_str_custom(&text, o.clone())), ("datum", lexpr::datum::from_str_custom(&text, o.clone()).map(|d| d.value().clone())), ("reader", lexpr::from_reader_custom(text.as_bytes(), o.clone()))] {
+                    match (&want, got) {
+                        (None, Err(_)) => {}
+                        (None, Ok(v)) => return Some(format!("{:?} should be an error under {:?}, got {} ({} API)", text, o, v, api)),
+                        (Some(w), Ok(v)) => { let w = if k == 9 { if f[3] == 1 { Value::Vector(vec![Value::symbol("x"), w.clone()].into()) } else { Value::list(vec![Value::symbol("x"), w.clone()]) } } else { wrap(w.clone(), k) };
+                                              if v != w { return Some(format!("{:?} under {:?} reads as {}, documented {} ({} API)", text, o, v, w, api)); } }
+                        (Some(w), Err(e)) => return Some(format!("{:?} under {:?} fails ({}), documented {} ({} API)", text, o, e, w, api)),
+                    }
+                }
+            }
+        }
+        return None;
+    }
     let p: Vec<&str> = case.split(':').collect();
     let (tok, o, want) = table().into_iter().nth(p.get(1)?.parse::<usize>().ok()?)?;
     for k in 0..4 {
